@@ -269,9 +269,9 @@ def run(ctx):
         if fx.tag != "fn" or fx.path.outcome[0] != "return":
             continue
         n += 1
-        forget = [e for e in fx.effects if e.kind == "RETAIN" and e.lst == "AB" and ktx.Analysis._retain_removes_key(e) == k]
+        forget = ktloops.forget_from_ab(K, np_, fx, k)
         look = [i for i, e in enumerate(fx.path.events) if e.kind == "call" and method_name(e.a) == "get" and "HashMap" in e.a]
-        ok = len(forget) == 1 and (not look or forget[0].pos < look[0])
+        ok = len(forget) == 1 and (not look or forget[0] < look[0])
         ck.ob("C06-R4", NP, "pressed-key-forgotten-from-mapped_absorbed_keys-before-any-lookup", ok)
     ck.floor("C06-R4", "newly_press-return-paths", n, 1)
     ck.explanation = "release_all loop, State::init, field-read inventory and forget-on-press ordering analysed; AB/AT staleness not decided."
